@@ -575,7 +575,7 @@ Note2: that Reed-Solomon can correct up to 2*resilience_rate erasures (eg, null 
             # Main loop: process each ecc entry
             entry = 1 # to start the while loop
             bardisp = tqdm.tqdm(total=dbsize, file=ptee, leave=True, desc='DBREAD', unit='B', unit_scale=True) # display progress bar based on reading the database file (since we don't know how many files we will process beforehand nor how many total entries we have)
-            while entry:
+            while entry is not None:
 
                 # -- Read the next ecc entry (extract the raw string from the ecc file)
                 #if replication_rate == 1:
@@ -583,7 +583,7 @@ Note2: that Reed-Solomon can correct up to 2*resilience_rate erasures (eg, null 
                 if entry: bardisp.update(len(entry)) # update progress bar
 
                 # No entry? Then we finished because this is the end of file (stop condition)
-                if not entry: break
+                if entry is None: break # an entry of length zero (two adjacent entrymarkers, eg an entry whose content was lost) is not the end of the file: it is reported and skipped below like any other unusable entry
 
                 # -- Get position of current entry (for debugging purposes)
                 entry_pos = [db.tell(), db.tell()-len(entry)]
